@@ -1742,3 +1742,214 @@ Lemma demo_cmd :
   cmd (lib_model_ok_v V31) V31 demo_u = Wrote demo_doc /\ cmd (fun _ => false) V31 demo_u = Failed /\
   cmd (lib_model_ok_v V31) V31 (f9_u "oneof=red blue") <> Failed.
 Proof. vm_compute. repeat split. discriminate. Qed.
+
+(* ------------------------------------------------------------------ *)
+(* the reachability used by the oracle prop_C07 (Kleene iteration over the declaration list)
+   describes the same set as [reach] *)
+
+Lemma text_round_in u prev k :
+  In k (text_round u prev) <->
+  In k (decl_keys u) /\
+  (In k (flat_map route_refs (all_routes_u u)) \/
+   exists d', In d' (u_decls u) /\ In (decl_key d') prev /\ In k (decl_refs d')).
+Proof.
+  unfold text_round, decl_keys. rewrite !in_map_iff. split.
+  - intros [d [E Hd]]. apply filter_In in Hd. destruct Hd as [Hd Hp]. split; [exists d; auto|].
+    apply orb_true_iff in Hp. destruct Hp as [Hp|Hp].
+    + left. apply mem_key in Hp. rewrite <- E. exact Hp.
+    + right. apply existsb_exists in Hp. destruct Hp as [d' [Hd' Hp]]. apply andb_true_iff in Hp.
+      destruct Hp as [H1 H2]. exists d'. split; auto. split; [apply mem_key; auto|].
+      apply mem_key in H2. rewrite <- E. exact H2.
+  - intros [[d [E Hd]] H]. exists d. split; auto. apply filter_In. split; auto.
+    apply orb_true_iff. destruct H as [H|[d' [Hd' [H1 H2]]]].
+    + left. apply mem_key. rewrite E. exact H.
+    + right. apply existsb_exists. exists d'. split; auto. apply andb_true_iff. split; apply mem_key; auto.
+      rewrite E. exact H2.
+Qed.
+
+Lemma text_round_mono u a b : incl a b -> incl (text_round u a) (text_round u b).
+Proof.
+  intros H k Hk. apply text_round_in in Hk. apply text_round_in. destruct Hk as [H1 H2]. split; auto.
+  destruct H2 as [H2|[d' [A [B C]]]]; auto. right. exists d'. auto.
+Qed.
+
+Lemma text_round_nodup u prev : NoDup (decl_keys u) -> NoDup (text_round u prev).
+Proof. intros H. unfold text_round. apply nodup_map_filter_local. exact H. Qed.
+
+Lemma text_round_incl u prev : incl (text_round u prev) (decl_keys u).
+Proof. intros k Hk. apply text_round_in in Hk. tauto. Qed.
+
+Definition kleene (u : universe) (n : nat) : list key := iter n (text_round u) [].
+
+Lemma kleene_S u n : kleene u (S n) = text_round u (kleene u n).
+Proof. unfold kleene. apply iter_S. Qed.
+
+Lemma kleene_chain u n : incl (kleene u n) (kleene u (S n)).
+Proof.
+  induction n as [|n IH].
+  - intros k [].
+  - intros k Hk. rewrite kleene_S. rewrite kleene_S in Hk. eapply text_round_mono; [exact IH|exact Hk].
+Qed.
+
+Lemma kleene_progress u n : NoDup (decl_keys u) ->
+  incl (kleene u (S n)) (kleene u n) \/ n + 1 <= List.length (kleene u (S n)).
+Proof.
+  intros Hn. induction n as [|n IH].
+  - destruct (kleene u 1) as [|k l] eqn:E.
+    + left. intros k [].
+    + right. simpl. lia.
+  - destruct IH as [IH|IH].
+    + left. intros k Hk. rewrite kleene_S. rewrite kleene_S in Hk. eapply text_round_mono; [exact IH|exact Hk].
+    + assert (N1 : NoDup (kleene u (S n))) by (rewrite kleene_S; apply text_round_nodup; auto).
+      assert (N2 : NoDup (kleene u (S (S n)))) by (rewrite kleene_S; apply text_round_nodup; auto).
+      pose proof (NoDup_incl_length N1 (kleene_chain u (S n))) as L.
+      destruct (Nat.le_gt_cases (List.length (kleene u (S (S n)))) (List.length (kleene u (S n)))) as [Hle|Hgt].
+      * left. apply NoDup_length_incl; auto. apply kleene_chain.
+      * right. lia.
+Qed.
+
+Lemma kleene_closed u : NoDup (decl_keys u) ->
+  incl (text_round u (reachable_set u)) (reachable_set u).
+Proof.
+  intros Hn. unfold reachable_set. fold (kleene u (S (List.length (u_decls u)))).
+  destruct (kleene_progress u (List.length (u_decls u)) Hn) as [H|H].
+  - intros k Hk. rewrite kleene_S. eapply text_round_mono; [exact H|exact Hk].
+  - exfalso.
+    assert (N1 : NoDup (kleene u (S (List.length (u_decls u))))) by (rewrite kleene_S; apply text_round_nodup; auto).
+    assert (I1 : incl (kleene u (S (List.length (u_decls u)))) (decl_keys u)) by (rewrite kleene_S; apply text_round_incl).
+    pose proof (NoDup_incl_length N1 I1) as L. unfold decl_keys in L. rewrite map_length in L. lia.
+Qed.
+
+Lemma kleene_sound u n k : NoDup (decl_keys u) -> In k (kleene u n) -> Reachable u k.
+Proof.
+  intros Hn. revert k. induction n as [|n IH]; intros k H; [destruct H|].
+  rewrite kleene_S in H. apply text_round_in in H. destruct H as [Hd [H|[d' [A [B C]]]]].
+  - apply R_root; auto.
+  - eapply R_edge; [apply IH; exact B|].
+    unfold succs. rewrite (find_decl_nodup u d' Hn A). apply filter_In. split; auto.
+    apply declared_key_in. exact Hd.
+Qed.
+
+Theorem reachable_set_spec u k : NoDup (decl_keys u) -> (In k (reachable_set u) <-> Reachable u k).
+Proof.
+  intros Hn. split.
+  - unfold reachable_set. fold (kleene u (S (List.length (u_decls u)))). apply (kleene_sound u _ k Hn).
+  - induction 1 as [k H1 H2|k k' Hk IH H'].
+    + unfold reachable_set. fold (kleene u (S (List.length (u_decls u)))). rewrite kleene_S.
+      apply text_round_in. auto.
+    + apply (kleene_closed u Hn). apply text_round_in.
+      unfold succs in H'. destruct (find_decl u k) as [d|] eqn:E; [|destruct H'].
+      apply filter_In in H'. destruct H' as [H1 H2]. split; [apply declared_key_in; auto|].
+      right. exists d. unfold find_decl in E. apply find_some in E. destruct E as [Hd Ek].
+      apply key_eqb_spec in Ek. split; auto. split; auto. rewrite Ek. exact IH.
+Qed.
+
+(* the oracle's reachability and the model's reachability agree *)
+Theorem reachable_set_reach u k : NoDup (decl_keys u) -> (In k (reachable_set u) <-> In k (reach u)).
+Proof. intros Hn. rewrite reachable_set_spec by exact Hn. symmetry. apply reach_spec. Qed.
+
+(* ------------------------------------------------------------------ *)
+(* the oracle prop_C07 accepts the model's components *)
+
+Lemma prop_eqb_refl_l a : prop_eqb a a = true.
+Proof. unfold prop_eqb. rewrite str_eqb_refl, schema_eqb_refl_l. reflexivity. Qed.
+
+Lemma comp_eqb_refl c : comp_eqb c c = true.
+Proof.
+  unfold comp_eqb. rewrite str_eqb_refl, (mset_eqb_refl_l prop_eqb prop_eqb_refl_l),
+    (list_eqb_refl_l str_eqb str_eqb_refl), (list_eqb_refl_l schema_eqb schema_eqb_refl_l).
+  destruct (k_enum c); [apply (mset_eqb_refl_l evalue_eqb evalue_eqb_refl)|reflexivity].
+Qed.
+
+Lemma count_key_one (t : table) n :
+  NoDup (keys t) -> In n (keys t) -> List.length (filter (fun nc => str_eqb (fst nc) n) t) = 1.
+Proof.
+  unfold keys. induction t as [|[m c] t IH]; simpl; intros Hn Hin; [destruct Hin|].
+  inversion Hn as [|? ? Hm Hn']; subst. destruct (str_eqb m n) eqn:E.
+  - apply str_eqb_spec in E. subst m. simpl. f_equal.
+    assert (F : filter (fun nc : str * comp => str_eqb (fst nc) n) t = []).
+    { clear -Hm. induction t as [|[k c'] t IH]; simpl; auto. simpl in Hm.
+      destruct (str_eqb k n) eqn:E.
+      - apply str_eqb_spec in E. subst. exfalso. apply Hm. left; reflexivity.
+      - apply IH. intros H. apply Hm. right; exact H. }
+    rewrite F. reflexivity.
+  - apply IH; auto. destruct Hin as [Hin|Hin]; auto. subst. rewrite str_eqb_refl in E. discriminate.
+Qed.
+
+Lemma want_reached u : NoDup (decl_keys u) ->
+  filter (reachable_in (reachable_set u)) (u_decls u) = reached_decls u.
+Proof.
+  intros Hn. unfold reached_decls. apply filter_ext. intros d. unfold reachable_in, in_keys.
+  destruct (mem key_eqb (decl_key d) (reachable_set u)) eqn:E1;
+  destruct (mem key_eqb (decl_key d) (reach u)) eqn:E2; auto.
+  - apply mem_key in E1. apply (reachable_set_reach u _ Hn) in E1. apply mem_key in E1. congruence.
+  - apply mem_key in E2. apply (reachable_set_reach u _ Hn) in E2. apply mem_key in E2. congruence.
+Qed.
+
+Definition enums_fit (v : dialect) (u : universe) : Prop :=
+  v = V31 \/ forall d, In d (u_decls u) -> string_enum_or_other d = true.
+
+Lemma generic_rfc_lookup v u :
+  unique_type_names u -> plain_error_present u = true -> lookup (generic_table v u) rfc_name = Some rfc_comp.
+Proof.
+  intros Hu P. unfold unique_type_names, expected_names in Hu. rewrite P in Hu.
+  apply NoDup_remove_2 in Hu. rewrite app_nil_r in Hu.
+  unfold generic_table. rewrite set_all_lookup_other.
+  - unfold with_rfc. rewrite P. apply lookup_set_comp_same.
+  - intros Hin. apply Hu. apply in_map_iff in Hin. destruct Hin as [d [E Hd]].
+    apply in_map_iff. exists d. split; auto. unfold alias_decls in Hd. apply filter_In in Hd. tauto.
+Qed.
+
+Lemma lookup_unique_entry (t : table) n c : NoDup (keys t) -> In (n, c) t -> lookup t n = Some c.
+Proof.
+  unfold keys. induction t as [|[m c'] t IH]; simpl; intros Hn Hin; [destruct Hin|].
+  inversion Hn as [|? ? Hm Hn']; subst. destruct Hin as [Hin|Hin].
+  - inversion Hin; subst. rewrite str_eqb_refl. reflexivity.
+  - destruct (str_eqb m n) eqn:E.
+    + apply str_eqb_spec in E. subst. exfalso. apply Hm. apply in_map_iff. exists (n, c). auto.
+    + apply IH; auto.
+Qed.
+
+Theorem prop_C07_holds v u t ops :
+  components v u = Some t -> quiet u = true -> unique_type_names u -> NoDup (decl_keys u) ->
+  plain_error_present u = returns_plain_error u -> enums_fit v u ->
+  prop_C07 u (mkDoc (dc_title (u_cfg u)) (dc_version (u_cfg u)) [dc_base_url (u_cfg u)] (dc_schemes (u_cfg u)) ops t) = true.
+Proof.
+  intros H Q Hu Hn Hp He.
+  destruct (components_keys v u t H) as [K ND].
+  pose proof H as Hg. rewrite (components_quiet v u Q) in Hg. inversion Hg; subst t. clear Hg.
+  unfold prop_C07. cbn [doc_comps]. rewrite (want_reached u Hn).
+  assert (Hnames : NoDup (map d_name (reached_decls u))).
+  { unfold unique_type_names, expected_names in Hu. eapply nodup_app_l; eauto. }
+  repeat (apply andb_true_iff; split).
+  - apply forallb_forall. intros dc Hdc. apply andb_true_iff. split.
+    + apply Nat.eqb_eq. apply count_key_one; auto. apply K. unfold expected_names. apply in_app_iff. left.
+      apply in_map; auto.
+    + rewrite (generic_table_lookup v u dc Hu Hdc). apply component_shape.
+      destruct He as [He|He]; auto. right. apply He. apply in_reached_decls; auto.
+  - apply nodup_b_spec. exact Hnames.
+  - apply forallb_forall. intros [n c] Hin. apply orb_true_iff.
+    assert (Hk : In n (expected_names u)) by (apply K; unfold keys; apply in_map_iff; exists (n, c); auto).
+    unfold expected_names in Hk. apply in_app_iff in Hk. destruct Hk as [Hk|Hk].
+    + left. apply existsb_exists. apply in_map_iff in Hk. destruct Hk as [dc [E Hdc]].
+      exists dc. split; auto. simpl. rewrite E. apply str_eqb_refl.
+    + right. destruct (plain_error_present u) eqn:P; [|destruct Hk]. destruct Hk as [Hk|[]]. subst n.
+      cbn [fst snd]. rewrite str_eqb_refl, <- Hp. cbn [andb].
+      pose proof (lookup_unique_entry _ _ _ ND Hin) as L.
+      rewrite (generic_rfc_lookup v u Hu P) in L. inversion L; subst c. apply comp_eqb_refl.
+  - destruct (returns_plain_error u) eqn:R; [|reflexivity]. simpl. apply mem_str. apply K.
+    unfold expected_names. apply in_app_iff. right. rewrite Hp. left; reflexivity.
+Qed.
+
+Lemma demo_holds_hyps :
+  components V31 demo_u <> None /\ quiet demo_u = true /\ unique_type_names demo_u /\ NoDup (decl_keys demo_u) /\
+  plain_error_present demo_u = returns_plain_error demo_u /\ enums_fit V31 demo_u /\ ~ enums_fit V30 demo_u.
+Proof.
+  split; [vm_compute; discriminate|]. split; [vm_compute; reflexivity|].
+  split; [apply unique_type_names_b_spec; vm_compute; reflexivity|].
+  split; [apply nodup_keys_b_spec; vm_compute; reflexivity|].
+  split; [vm_compute; reflexivity|]. split; [left; reflexivity|].
+  intros [H|H]; [discriminate|].
+  specialize (H (nth 3 demo_decls color_decl)). vm_compute in H.
+  assert (false = true) as F by (apply H; right; right; right; left; reflexivity). discriminate.
+Qed.
